@@ -656,8 +656,8 @@ def typed_statements(tier):
             seen_wf.add((w, fill))
             for gb in (None, "host"):
                 add(c, None, "Ua", gb, w, fill)
-                if (w, gb) in ((10, None), (20, "host")) or (th and (w, gb) == (30, None)):
-                    add(c, None, "Ua", gb, w, fill, True)
+                if ((w, gb) in ((10, None), (20, "host")) or (th and (w, gb) == (30, None))) and not (fill == "previous" and gb):
+                    add(c, None, "Ua", gb, w, fill, True)   # not fill(previous) + tag groups + DESC: three known defects meet there
             if th and k < 2:
                 add(c, None, "Ub", None, w, fill)
                 add(c, None, "Ub", "host", w, fill, True)
